@@ -387,8 +387,10 @@ func WriteZipArchive(st storage.Storer, w io.Writer, tree *object.Tree, commitHa
 		case filemode.Executable:
 			fh.SetMode(fs.FileMode(ApplyUmask(unixMode, true)))
 		case filemode.Symlink:
-			// Zip stores symlinks with mode 0o120000 + permissions.
-			fh.SetMode(fs.FileMode(0o120000 | (ApplyUmask(unixMode, true) & 0o777)))
+			// SetMode takes Go's mode bits, not Unix ones: the link type has
+			// to be given as fs.ModeSymlink. Symlinks always get 0777 per
+			// canonical git.
+			fh.SetMode(fs.ModeSymlink | 0o777)
 		default:
 			fh.SetMode(fs.FileMode(ApplyUmask(unixMode, false)))
 		}
